@@ -1176,9 +1176,10 @@ impl FatVolume {
             };
         debug!("Next free cluster is {:?}", self.next_free_cluster);
         // Record that we've allocated a cluster
-        if let Some(ref mut number_free_cluster) = self.free_clusters_count {
-            *number_free_cluster -= 1;
-        };
+        // (a stale count from the info sector must not make this underflow)
+        self.free_clusters_count = self
+            .free_clusters_count
+            .and_then(|number_free_cluster| number_free_cluster.checked_sub(1));
         if zero {
             let start_block_idx = self.cluster_to_block(new_cluster);
             let num_blocks = BlockCount(u32::from(self.blocks_per_cluster));
